@@ -98,13 +98,37 @@ Theorem C05_wsgi_asgi_same_status : forall i st o fa,
 Proof. exact wsgi_asgi_same_status_class. Qed.
 Print Assumptions C05_wsgi_asgi_same_status.
 
+(* Responses built in several steps (assignments interleaved with early render_body() calls):
+   the app finally renders from the LATEST text / data / media, so precedence and
+   Content-Length (C05_wsgi_framing / C05_asgi_framing, which hold for every input) refer to
+   those; a cached rendering of the media never shadows data or text assigned later and never
+   survives a reassignment of media. *)
+Theorem C05_session_values : forall l head status stream clen wrapper,
+  let i := input_of_session l head status stream clen wrapper in
+  (i_text i, i_data i, i_media i) = latest_values l.
+Proof. exact session_values. Qed.
+Print Assumptions C05_session_values.
+
+Theorem C05_session_precedence : forall l head status stream clen wrapper,
+  render_body (input_of_session l head status stream clen wrapper) =
+  (let '(t, d, m) := latest_values l in
+   match t with Some x => Some x | None => match d with Some x => Some x | None => m end end).
+Proof. exact session_precedence. Qed.
+Print Assumptions C05_session_precedence.
+
+Example C05_example_render_then_data :
+  let l := [StMedia (Some [123; 125]); StRender; StData (Some [100; 97; 116; 97])] in
+  exists st, wsgi_emit true (input_of_session l false (SInt 200) None None false) = Some st /\
+             ws_body st = WList [[100; 97; 116; 97]] /\ h_clen (ws_headers st) = Some [52].
+Proof. eexists. split; [reflexivity|]. vm_compute. auto. Qed.
+
 (* ---- non-vacuity *)
 Definition ex_stream : stream :=
   {| k_kind := KIter; k_chunks := [Some [97; 98]; Some [99]]; k_raises := true; k_has_close := true |}.
 Definition ex_input : input :=
   {| i_head := false; i_status := SLine [50; 48; 48; 32; 70; 105; 110; 101]; i_text := None;
      i_data := None; i_media := None; i_stream := Some ex_stream; i_sse := None;
-     i_clen := None; i_ctype := None; i_wrapper := false |}.
+     i_clen := None; i_ctype := None; i_wrapper := false; i_cached := false |}.
 
 Example C05_example_stream_send_failure :
   status_wf (i_status ex_input) = true /\ typeless_media ex_input = false /\
@@ -117,7 +141,7 @@ Proof. split; [reflexivity|]. split; [reflexivity|]. eexists. split; [reflexivit
 Example C05_example_head_length :
   let i := {| i_head := true; i_status := SEnum 200 [79; 75]; i_text := Some [104; 105];
               i_data := Some [1]; i_media := None; i_stream := Some ex_stream; i_sse := None;
-              i_clen := None; i_ctype := None; i_wrapper := true |} in
+              i_clen := None; i_ctype := None; i_wrapper := true; i_cached := false |} in
   status_wf (i_status i) = true /\ wsgi_stream_ok i = true /\ typeless_media i = false /\
   exists st, wsgi_emit true i = Some st /\ ws_body st = WList [] /\
              h_clen (ws_headers st) = Some [50] /\ sv_reads (serve (ws_body st)) = 0%nat.
